@@ -1121,6 +1121,16 @@ pub fn f6_rec_programs() -> Vec<Program> {
             ],
         });
     }
+    // cycles whose only members are @references that are not schemas to cut at: aliases of
+    // each other, of themselves, through a plain declaration, and a URI built from itself
+    programs.push(single(vec![let_("@page", var("@next")), let_("@next", var("@page")), get(content(var("@page")))]));
+    programs.push(single(vec![let_("@a", var("@a")), get(content(var("@a")))]));
+    programs.push(single(vec![let_("@a", var("b")), let_("b", var("@a")), get(content(var("b")))]));
+    programs.push(single(vec![
+        let_("@self", app("concat", vec![var("@self"), uri_lit(&["more"])])),
+        Stmt::Res(rel(var("@self"), vec![xfer(Method::Get, E::Content(vec![], None))])),
+    ]));
+    programs.push(single(vec![let_("@c", content(var("@c"))), get(var("@c"))]));
     programs
 }
 
@@ -2048,6 +2058,18 @@ pub fn f10() -> Fragment {
     programs.push(single(vec![
         Stmt::Res(rel(uri_lit(&["root"]), vec![ok.clone()])),
         Stmt::Res(rel(uri_lit(&[""]), vec![ok.clone()])),
+    ]));
+    // two name errors in one program: a declaration written twice and a use of an undefined
+    // name (which one is reported must not depend on the order of the statements)
+    programs.push(single(vec![
+        let_("a", obj(vec![prop("p", var("missing"))])),
+        let_("c", obj(vec![])),
+        let_("c", arr(num())),
+    ]));
+    programs.push(single(vec![
+        let_("c", obj(vec![])),
+        get(content(var("missing"))),
+        let_("c", arr(num())),
     ]));
     // the same tag written twice in one content (the later one is the one evaluated): valid and
     // ill-kinded values in either place
